@@ -437,9 +437,14 @@ def first_diff(a, b):
     for i in range(max(len(a), len(b))):
         x = a[i] if i < len(a) else None
         y = b[i] if i < len(b) else None
+        if x == UNOBSERVED and y is not None:
+            continue        # an executor that cannot observe this op (see harness/nodewasm)
         if x != y:
             return i
     return None
+
+
+UNOBSERVED = "*unobserved*"
 
 
 # ------------------------------------------------------------------------------------------------
